@@ -251,7 +251,7 @@ pub fn fi_string(id: u64) -> String {
 pub fn fi_case() -> impl Strategy<Value = FiCase> {
     (
         0u8..3,
-        3u8..=9,
+        prop_oneof![1 => 0u8..=2, 10 => 3u8..=9],
         1u8..=12,
         proptest::collection::vec(
             (prop_oneof![Just(c07::Shape::Uniform), Just(c07::Shape::Zipf), Just(c07::Shape::AllDistinct), Just(c07::Shape::Heavy)], 1u16..=1500, c07::weight_strategy(), any::<u64>()),
@@ -266,7 +266,7 @@ fn fi_typed<T>(c: &FiCase, info: &mut CaseInfo, conv: &dyn Fn(u64) -> T, strings
 where
     T: datasketches::frequencies::FrequentItemValue + std::hash::Hash + Eq + Clone + std::fmt::Debug + Ord,
 {
-    let domain = (((1u64 << c.lg) * c.domain_q as u64) / 4).max(2);
+    let domain = (((1u64 << c.lg.max(3)) * c.domain_q as u64) / 4).max(2);
     let mut s: FrequentItemsSketch<T> = FrequentItemsSketch::new(1usize << c.lg);
     let mut total = 0u64;
     for (shape, n, w, seed) in &c.runs {
